@@ -186,6 +186,9 @@ namespace zoo {
       ZCASE { v.generative(); uint64_t lvl = w.nd(); const ipr::Requires& n = *lx.make_requires(*w.reg, Mapping_level{ lvl }); v.template node<ipr::Requires>(n);
               v.operands(util::rep(n.parameters().level()) == lvl && n.body().size() == 0 && same(n.parameters().region().enclosing(), *w.reg)); v.typed(n, &lx.bool_type()); return; }
       ZCASE { const ipr::Name& nm = w.n(); const ipr::Type& ty = w.t(); const ipr::Symbol& n = lx.get_symbol(nm, ty); v.template node<ipr::Symbol>(n); v.operands(same(n.name(), nm) && same(n.operand(), nm)); v.typed(n, &ty); return; }
+      ZCASE { static const char8_t* const reserved[] = { u8"true", u8"false", u8"nullptr", u8"default", u8"delete", u8"this", u8"int" };      /* a symbol is identified by (name, type) also when the name is a reserved word */
+              const ipr::Name& nm = lx.get_identifier(reserved[w.pick(7)]); const ipr::Type& ty = w.t(); const ipr::Symbol& n = lx.get_symbol(nm, ty); v.template node<ipr::Symbol>(n);
+              v.operands(same(n.name(), nm) && same(n.operand(), nm)); v.typed(n, &ty); return; }
       ZCASE { const ipr::Identifier& i = w.id(); const ipr::Symbol& n = lx.get_label(i); v.template node<ipr::Symbol>(n); v.operands(same(n.name(), i)); v.typed(n, &lx.void_type()); return; }
       ZCASE { const ipr::Type& ty = w.t(); const ipr::Symbol& n = lx.get_this(ty); v.template node<ipr::Symbol>(n);
               auto nm = util::view<ipr::Identifier>(n.name()); v.operands(nm && nm->string().characters() == util::word_view(u8"this")); v.typed(n, &ty); return; }
